@@ -216,6 +216,7 @@ func (c *Ctx) finish(verifDir, tier string, seed int, start time.Time, meta prop
 		"instance_floors":     c.floors,
 		"known_findings_hit":  knownHit,
 		"notes":               c.notes,
+		"renamed_functions":   c.P.RenameNotes,
 		"checker_cmd":         "./run.sh " + c.Prop + " " + tier,
 		"trusted_base":        []string{"go list / go/types / go/ssa (x/tools v0.50.0, go1.26.8)", "CHA-seeded VTA call graph", "third-party libraries are opaque (gin, net/http, httputil, gorilla/websocket, yamux, golang-jwt, codec)"},
 	}
